@@ -36,10 +36,11 @@ const (
 	opGetSlice
 	opGetFloatOr
 	opGetSliceOr
+	opBindFloat
 	numLinOps
 )
 
-var linOpNames = []string{"Set", "Get", "Has", "Delete", "Len", "Keys", "GetAll", "Merge", "Clear", "GetInt", "GetIntOr", "GetString", "GetStringOr", "GetFloat64", "Bind", "GetSlice", "GetFloat64Or", "GetSliceOr"}
+var linOpNames = []string{"Set", "Get", "Has", "Delete", "Len", "Keys", "GetAll", "Merge", "Clear", "GetInt", "GetIntOr", "GetString", "GetStringOr", "GetFloat64", "Bind", "GetSlice", "GetFloat64Or", "GetSliceOr", "Bind(*float64)"}
 
 type linState [linKeys]int64 // 0 = absent, otherwise the unique code of the value
 
@@ -177,6 +178,11 @@ func linStep(state, input, output any) (bool, any) {
 			return !out.OK, st
 		}
 		return out.OK && out.V == cur, st
+	case opBindFloat: // the stored int goes through the JSON round trip into *float64; everything else is an error
+		if !isInt {
+			return !out.OK, st
+		}
+		return out.OK && out.V == cur, st
 	case opGetSlice:
 		if isSlice {
 			return out.N == 1 && out.V == cur, st
@@ -277,6 +283,12 @@ func linApplyOwn(s *flyt.SharedStore, in linIn, own map[string]any) linOut {
 			return linOut{}
 		}
 		return linOut{OK: true, V: int64(d)}
+	case opBindFloat:
+		var d float64
+		if err := s.Bind(k, &d); err != nil {
+			return linOut{}
+		}
+		return linOut{OK: true, V: int64(d)}
 	case opGetSlice:
 		g := s.GetSlice(k)
 		o := linOut{N: len(g)}
@@ -321,15 +333,15 @@ type LinCase struct {
 }
 
 // weights of the two operation mixes
-var mixRead = []int{opSet, opSet, opGet, opGet, opHas, opLen, opKeys, opGetAll, opGetAll, opMerge, opClear, opDelete, opGetInt, opGetIntOr, opGetString, opGetStringOr, opGetFloat, opBindInt, opGetSlice, opLen, opKeys}
-var mixMerge = []int{opMerge, opMerge, opMerge, opClear, opClear, opGetAll, opGetAll, opGetAll, opKeys, opLen, opSet, opDelete, opGet}
+var mixRead = []int{opBindFloat, opSet, opSet, opGet, opGet, opHas, opLen, opKeys, opGetAll, opGetAll, opMerge, opClear, opDelete, opGetInt, opGetIntOr, opGetString, opGetStringOr, opGetFloat, opBindInt, opGetSlice, opLen, opKeys}
+var mixMerge = []int{opBindFloat, opBindFloat, opMerge, opMerge, opMerge, opClear, opClear, opGetAll, opGetAll, opGetAll, opKeys, opLen, opSet, opDelete, opGet}
 
 // hot-key mix: one key, values of changing type, typed getters with non-zero defaults (a getter that reads the store
 // twice is caught between a Set/Delete pair)
 var mixHot = []int{opSet, opSet, opSet, opDelete, opDelete, opGetFloatOr, opGetFloatOr, opGetIntOr, opGetSliceOr, opGetSliceOr, opGetSlice, opGetStringOr, opClear, opBindInt}
 
 // re-merge mix: clients read (GetAll/Get) and merge back what they saw plus something new, against Clear/Delete/Set
-var mixRemerge = []int{opMerge, opMerge, opMerge, opMerge, opGetAll, opGetAll, opGet, opClear, opClear, opDelete, opDelete, opSet, opHas, opLen, opKeys}
+var mixRemerge = []int{opBindFloat, opMerge, opMerge, opMerge, opMerge, opGetAll, opGetAll, opGet, opClear, opClear, opDelete, opDelete, opSet, opHas, opLen, opKeys}
 
 func recordHistory(c *Cfg, idx int) *LinCase {
 	rg := c.Rng("c13", idx)
